@@ -125,9 +125,16 @@ def run(ctx):
         enc, L = template(rng)
         L.append("open rdwr")
         st = {"n": 0, "added_vec": [], "added_sca": [], "nfrag": 2}
+        if i % 2:
+            # root names of the same lengths as the affixed names of the sub-fragment (P_x_S, P_kk_S), placed so that a change of
+            # affix of unchanged length carries the sub-fragment's names across them in the length-then-bytes order
+            for nm in ("G_m_S", "R_m_S", "G_mm_S", "R_mm_S", "P_x_G", "P_x_Y"):
+                L.append("addspec 0 " + hx("%s CONST UINT8 1" % nm))
         for _ in range(rng.randint(3, 16)):
             r = rng.random()
-            if r < 0.55:
+            if i % 2 and r < 0.12:
+                L.append("affixes 1 %s %s" % (rng.choice(["A_", "Z_", "P_", "H_", "-", "Zz_"]), rng.choice(["_S", "_T", "_B", "_Z", "-"])))
+            elif r < 0.55:
                 L.append(c07.mutation(rng, st))
             elif r < 0.7:
                 tgt = rng.choice(["a", "b", "c", "k", "ki", "ca", "s", "sa", "l1", "l2", "ph", "bt", "mu", "rc", "po", "wi", "mp", "ind", "lt", "al", "al2",
